@@ -160,6 +160,17 @@ def gen_requests(rng, quick):
                  "line": "rk42|%s|%s %s %s %s %s" % (poly_spec([1.]), b(0.), b(1.), b(0.7), b(1e-3), b(0.))})
     reqs.append({"kind": "rk54", "c": [1.], "c2": [2.], "ti": 0., "tf": 1., "dt0": 0.3, "eps": 1e-3, "y0": 0., "z0": 0.,
                  "line": "rk54|%s;%s|%s %s %s %s %s %s" % (poly_spec([1.]), poly_spec([2.]), b(0.), b(1.), b(0.3), b(1e-3), b(0.), b(0.))})
+    # the one-shot requests again with quantity-typed bounds (qt<Time,double>): same model line, same predicates
+    twin = {}
+    for i in range(len(reqs)):
+        r = reqs[i]
+        if r["line"].startswith("gk1|"):
+            q = dict(r)
+            q["line"], q["mline"], q["quantity"] = "gk1q|" + r["line"][4:], r["line"], True
+            if "swap_of" in r:
+                q["swap_of"] = twin[r["swap_of"]]
+            twin[i] = len(reqs)
+            reqs.append(q)
     return reqs
 
 
@@ -191,7 +202,7 @@ def run(ck):
     mlines = []
     for i, r in enumerate(reqs):
         if r["kind"].startswith("gk") or r["kind"] in ("novalue", "norefine"):
-            mlines.append(r["line"])
+            mlines.append(r.get("mline", r["line"]))
         elif r["kind"] in ("rk42", "rk54"):
             a = impl[i] if i < len(impl) else ""
             if " trace" in a:
@@ -218,7 +229,10 @@ def run(ck):
 
     viol = {}     # key -> (what, rep, found)
 
+    qsuffix = [""]
+
     def report(key, what, rep, found):
+        key += qsuffix[0]
         if key not in viol:
             viol[key] = (what, rep, found)
 
@@ -229,6 +243,7 @@ def run(ck):
         a = impl[i] if i < len(impl) else "missing"
         m = model[i] if i < len(model) else "missing"
         k = r["kind"]
+        qsuffix[0] = ":quantity-bounds" if r.get("quantity") else ""
         rep = {"request": r["line"], "implementation": a, "model": m,
                **{kk: (repr(v) if isinstance(v, float) else v) for kk, v in r.items() if kk not in ("line",)}}
         if k.startswith("gk") or k in ("novalue", "norefine"):
@@ -279,6 +294,17 @@ def run(ck):
             lo2 = -INF if lo <= -big else (INF if lo >= big else lo)
             hi2 = -INF if hi <= -big else (INF if hi >= big else hi)
             exact = ANALYTIC[r["f"]](lo2, hi2)
+            if k == "gk1fun":
+                # one-shot value: no tolerance is requested, but a rule that reports a negligible error estimate
+                # must not be grossly wrong (wrong change of variable, wrong sign, missing factor)
+                est = d(a.split()[1])
+                stats["oneshot_checked"] = stats.get("oneshot_checked", 0) + 1
+                sc = max(1., abs(exact))
+                if est <= 1e-6 * sc and abs(val - exact) > 1e-3 * sc:
+                    rep["exact_integral"] = exact
+                    report("GaussKronrodQuadrature::operator():one-shot-value:%s" % r["f"],
+                           "integral of %s over (%r, %r): one-shot value %r with error estimate %g, exact %r" % (
+                               r["f"], lo, hi, val, est, exact), rep, True)
             if k == "gkpfun":
                 stats["analytic_within_tol"] += 1
                 if abs(val - exact) > r["tol"] + 1e-12 * max(1., abs(exact)):
@@ -379,7 +405,7 @@ def run(ck):
         "evaluations": len(reqs), "distinct_nontrivial": len({r["line"] for r in reqs}),
         "rule": "requests = seeded polynomials of every degree 0..25 on random intervals in both orientations (one-shot and "
                 "refined), monomials on [-1,1] and [0,1], six analytic integrands on finite / half-infinite / infinite "
-                "intervals, NaN and same-sign infinite bounds, Runge-Kutta runs with y'=p(t), deg p < order, for exe "
+                "intervals, NaN and same-sign infinite bounds, every one-shot request again with quantity-typed bounds qt<Time,double>, Runge-Kutta runs with y'=p(t), deg p < order, for exe "
                 "(divisible, rounded, non-divisible spans) and iterate (initial steps from 5% to 150% of the span); "
                 "distinct = distinct request lines",
         "statistics": stats, "traces_validated_against_impl": stats["gk_bitexact"] + stats["traces_valid"],
